@@ -333,3 +333,31 @@ Definition rl_explain (c : rl_case) : list expected :=
   | _ => map (fun w => ECorr (option_map (fun t : triple => let '(a, b, d) := t in (this a, this b, this d)) (pearson_w (rl_obs_w c w))))
              (seq 0 (r_W c))
   end.
+
+(* ================================================================ HISTORIES: compute() between updates *)
+(* compute() is pure and its result belongs to the caller: whatever was computed (or done to the returned arrays) before,
+   a compute() after the first k rows returns the statistic of those k rows.  [spec_history spec [] h] lists what every
+   Compute of the history h must return. *)
+Fixpoint spec_history {R O} (spec : list R -> O) (seen : list R) (h : list (op R)) : list O :=
+  match h with
+  | [] => []
+  | Update b :: t => spec_history spec (seen ++ b) t
+  | Compute :: t => spec seen :: spec_history spec seen t
+  end.
+
+(* a case with intermediate observations: (number of rows fed so far, (shape, values) of that compute()) *)
+Record hist_case := { h_final : cpa_case; h_prefix : list (nat * (list nat * list fval)) }.
+
+Definition prefix_case (c : cpa_case) (k : nat) (shape : list nat) (vals : list fval) : cpa_case :=
+  {| k_kind := k_kind c; k_prec := k_prec c; k_dims := k_dims c; k_S := k_S c; k_tden := k_tden c;
+     k_traces := firstn k (k_traces c); k_dden := k_dden c; k_data := firstn k (k_data c);
+     k_obs_shape := shape; k_obs := vals |}.
+
+Definition hist_check (h : hist_case) : bool :=
+  cpa_check (h_final h)
+  && forallb (fun p => Nat.leb (fst p) (length (k_traces (h_final h)))
+                       && cpa_check (prefix_case (h_final h) (fst p) (fst (snd p)) (snd (snd p)))) (h_prefix h).
+
+Definition hist_explain (h : hist_case) : list (nat * list expected) :=
+  map (fun p => (fst p, cpa_explain (prefix_case (h_final h) (fst p) (fst (snd p)) (snd (snd p))))) (h_prefix h)
+  ++ [(length (k_traces (h_final h)), cpa_explain (h_final h))].
